@@ -107,25 +107,25 @@ Definition fcase_spec_ok (c : fcase) : bool :=
    them on the Model is the reference, which reproduces CPython: that is fcase_model_ok's second half) *)
 Definition restrict (cfg : deviations) (m : list bool) : deviations :=
   match m with
-  | [a; b; c; d; e] =>
+  | [a; b; c; d; e; f] =>
       {| d8_else_drops_jump := a && d8_else_drops_jump cfg; d9_with_flat := b && d9_with_flat cfg;
          d10_base_uncaught := c && d10_base_uncaught cfg; d200_unbind_keyerror := d && d200_unbind_keyerror cfg;
-         d201_enter_in_try := e && d201_enter_in_try cfg |}
+         d201_enter_in_try := e && d201_enter_in_try cfg; d202_asyncfor_sync := f && d202_asyncfor_sync cfg |}
   | _ => cfg
   end.
 Definition dev_numbers (m : list bool) : list nat :=
-  concat (map (fun p : bool * nat => if fst p then [snd p] else []) (combine m [8; 9; 10; 200; 201]%nat)).
+  concat (map (fun p : bool * nat => if fst p then [snd p] else []) (combine m [8; 9; 10; 200; 201; 202]%nat)).
 Fixpoint masks (n : nat) : list (list bool) :=
   match n with O => [[]] | S n' => map (cons false) (masks n') ++ map (cons true) (masks n') end.
 Definition mask_size (m : list bool) : nat := length (filter (fun b => b) m).
-(* masks of 5 switches ordered by number of switches on (stable) *)
+(* masks of the 6 switches ordered by number of switches on (stable) *)
 Definition masks_by_size : list (list bool) :=
-  concat (map (fun k => filter (fun m => Nat.eqb (mask_size m) k) (masks 5)) [1; 2; 3; 4; 5]%nat).
+  concat (map (fun k => filter (fun m => Nat.eqb (mask_size m) k) (masks 6)) [1; 2; 3; 4; 5; 6]%nat).
 Definition mask_within (cfg : deviations) (m : list bool) : bool :=
   match m with
-  | [a; b; c; d; e] =>
+  | [a; b; c; d; e; f] =>
       implb a (d8_else_drops_jump cfg) && implb b (d9_with_flat cfg) && implb c (d10_base_uncaught cfg)
-      && implb d (d200_unbind_keyerror cfg) && implb e (d201_enter_in_try cfg)
+      && implb d (d200_unbind_keyerror cfg) && implb e (d201_enter_in_try cfg) && implb f (d202_asyncfor_sync cfg)
   | _ => false
   end.
 Definition fcase_attrib (cfg : deviations) (ct : cls_table) (c : fcase) : list nat :=
